@@ -35,6 +35,10 @@ Class(r) == LET h == Lines(r)  n == Len(r.obs) IN
            /\ LET f == SelectSeq(r.obs, LAMBDA o : o.entry = "function") IN
               (\A k \in 1..Len(f) : Allowed(h, r.vid, f[k])) /\ NonInterference(f)
       THEN -9         \* only the monitor process (fed through a pipe, padded texts) disagrees
+   ELSE IF /\ ~WellFormed(h) /\ ~WellFormed(AsText(h)) /\ WellFormed(AsSym(AsText(h)))
+           /\ \A k \in 1..n : r.obs[k].kind \in {"err", "nogo", "name", "other"}
+           /\ \E k \in 1..n : ~Allowed(h, r.vid, r.obs[k])
+      THEN -10        \* a symbol line without "(" (location line kept) changes the name
    ELSE IF /\ ~WellFormed(h) /\ WellFormed(AsText(h))
            /\ \A k \in 1..n : r.obs[k].kind \in {"err", "nogo", "name", "other"}
       THEN -8         \* a later "sentinel ..." line changes the result
